@@ -115,6 +115,7 @@ impl<T, D: Data<Elem = f64>> Fit<ArrayBase<D, Ix2>, T, ReductionError> for PcaPa
             embedding: v_t,
             sigma,
             mean,
+            n_samples: dataset.nsamples(),
         })
     }
 }
@@ -148,6 +149,7 @@ pub struct Pca<F> {
     embedding: Array2<F>,
     sigma: Array1<F>,
     mean: Array1<F>,
+    n_samples: usize,
 }
 
 impl Pca<f64> {
@@ -165,12 +167,12 @@ impl Pca<f64> {
 
     /// Return the amount of explained variance per element
     pub fn explained_variance(&self) -> Array1<f64> {
-        self.sigma.mapv(|x| x * x / (self.sigma.len() as f64 - 1.0))
+        self.sigma.mapv(|x| x * x / (self.n_samples as f64 - 1.0))
     }
 
     /// Return the normalized amount of explained variance per element
     pub fn explained_variance_ratio(&self) -> Array1<f64> {
-        let ex_var = self.sigma.mapv(|x| x * x / (self.sigma.len() as f64 - 1.0));
+        let ex_var = self.explained_variance();
         let sum_ex_var = ex_var.sum();
 
         ex_var / sum_ex_var
